@@ -70,6 +70,41 @@ enum { ANON_A = 1, ANON_B };
                          names=["ANON_A", "ANON_B"], alt=False),
             "M_ONE": decl("var", "M_ONE", [], ["M_ONE"], alt=False),
         }},
+    # one declaration per kind of type constructor, each over a typedef that nothing else mentions: the
+    # traversal has to follow the edge of every TypeKind (vector, array, pointer, qualified, function return)
+    "kinds": {
+        "ext": ".h", "flags": [],
+        "text": """typedef float sample_t;
+typedef sample_t frame_t __attribute__((vector_size(16)));
+struct mixer { frame_t gain; int channels; };
+typedef short elem_t;
+typedef elem_t row_t[4];
+struct grid { row_t rows[2]; };
+typedef long tick_t;
+struct timer { tick_t *deadline; };
+typedef unsigned char byte_t;
+typedef byte_t (*getter_t)(void);
+struct source { getter_t get; };
+typedef int qual_t;
+struct cq { const volatile qual_t q; };
+void mixer_apply(struct mixer *m);
+""",
+        "decls": {
+            "sample_t": decl("type", "sample_t", [], ["sample_t"]),
+            "frame_t": decl("type", "frame_t", ["sample_t"], ["frame_t"], edges=["VectorElement"]),
+            "mixer": decl("type", "mixer", ["frame_t"], ["mixer"]),
+            "elem_t": decl("type", "elem_t", [], ["elem_t"]),
+            "row_t": decl("type", "row_t", ["elem_t"], ["row_t"], edges=["ArrayElement"]),
+            "grid": decl("type", "grid", ["row_t"], ["grid"]),
+            "tick_t": decl("type", "tick_t", [], ["tick_t"]),
+            "timer": decl("type", "timer", ["tick_t"], ["timer"], edges=["Pointee"]),
+            "byte_t": decl("type", "byte_t", [], ["byte_t"]),
+            "getter_t": decl("type", "getter_t", ["byte_t"], ["getter_t"], edges=["FunctionReturn"]),
+            "source": decl("type", "source", ["getter_t"], ["source"]),
+            "qual_t": decl("type", "qual_t", [], ["qual_t"]),
+            "cq": decl("type", "cq", ["qual_t"], ["cq"]),
+            "mixer_apply": decl("function", "mixer_apply", ["mixer"], ["mixer_apply"]),
+        }},
     "ns": {
         "ext": ".hpp", "flags": ["--enable-cxx-namespaces"],
         "text": """namespace ns {
